@@ -179,6 +179,39 @@ def run(ctx, spec):
                         ctx.viol("C18.masks", {"kind": "mask", "parent": list(parent)}, f"raised {type(exc).__name__}: {exc}")
                     if ctx.too_many():
                         return
+        # long sequences (40-300 elements) with sparse subsequences: gaps of 48+ absent positions, word boundaries
+        lrng = ctx.rng("longmasks")
+        nlong = 0
+        for _ in range(300 if ctx.tier == "quick" else 4000):
+            L = lrng.choice([40, 49, 50, 60, 64, 65, 100, 129, 200, 300])
+            parent = [f"g{i}" for i in range(L)] if lrng.random() < 0.7 else list(range(L))
+            lrng.shuffle(parent)
+            style = lrng.random()
+            if style < 0.4:
+                idx = sorted(lrng.sample(range(L), lrng.randint(1, 4)))  # very sparse: long gaps
+            elif style < 0.6:
+                idx = sorted({0, L - 1} | set(lrng.sample(range(L), lrng.randint(0, 2))))
+            elif style < 0.8:
+                k = lrng.randrange(L)
+                idx = list(range(k, min(L, k + lrng.randint(1, 5))))  # one block, everything else absent
+            else:
+                idx = [i for i in range(L) if lrng.random() < 0.5]
+            mask = sum(1 << i for i in idx)
+            sub = [parent[i] for i in idx]
+            case = {"kind": "mask", "parent": list(parent), "mask": mask}
+            try:
+                got_mask = SUB.mask_from_subseq(sub, parent)
+                got_sub = list(SUB.subseq_from_mask(mask, parent))
+            except Exception as exc:  # noqa: BLE001
+                ctx.viol("C18.masks", case, f"raised {type(exc).__name__}: {exc} (sequence of {L} elements, positions {idx[:6]}...)")
+                continue
+            cnt += 2
+            nlong += 1
+            if got_mask != mask:
+                ctx.viol("C18.masks", case, f"mask_from_subseq on a sequence of {L} elements, positions {idx[:8]}: got mask {got_mask:#x}, expected {mask:#x}")
+            if got_sub != sub:
+                ctx.viol("C18.masks", case, f"subseq_from_mask on a sequence of {L} elements, positions {idx[:8]}: got {got_sub[:8]}, expected {sub[:8]}")
+        ctx.count("mon.long_sequences", nlong)
         ctx.count("evaluations", cnt)
         ctx.count("mon.mask_roundtrip", cnt)
         ctx.sample({"kind": "mask", "parent": list("abcd"), "mask": 0b1010})
